@@ -35,9 +35,11 @@ def main():
         if a.tests:
             env = dict(os.environ); env.pop("PYUBX2_SRC", None)
             env["PYTHONPATH"] = d + "/src"
-            r = subprocess.run(["/venv/bin/python", "-m", "pytest", "-q", "-p", "no:cacheprovider", "--timeout=900", "-q", "--no-cov", "--deselect", "tests/test_stream.py::StreamTest::testNMEA"], cwd=d, capture_output=True, text=True, env=env)
+            r = subprocess.run(["/venv/bin/python", "-m", "pytest", "-q", "-p", "no:cacheprovider", "--timeout=900", "-q", "--no-cov"], cwd=d, capture_output=True, text=True, env=env)
             tail = [l for l in r.stdout.strip().splitlines() if l.strip()][-1:] if r.stdout.strip() else [r.stderr[-300:]]
-            print(f"TESTS rc={r.returncode} {tail}")
+            failed = sorted(l.split()[1] for l in r.stdout.splitlines() if l.startswith("FAILED "))
+            ok = set(failed) <= {"tests/test_stream.py::StreamTest::testNMEA"} and "passed" in r.stdout
+            print(f"TESTS {'PASS (only the baseline failure testNMEA)' if ok else 'FAIL'} {tail}")
             if r.returncode:
                 print("\n".join(l for l in r.stdout.splitlines() if l.startswith("FAILED"))[:2000])
         res = {}
